@@ -23,6 +23,9 @@ func funcProps(name string) []string {
 }
 
 func funcPropsBase(name string) []string {
+	if r, ok := roleAlias[name]; ok {
+		name = r
+	}
 	kernel := []string{"C01", "C02", "C03", "C05", "C08", "C09", "C10", "C11", "C16", "C17", "C18"}
 	switch name {
 	case "Decimal.add", "Decimal.AddWithMode", "Decimal.SubWithMode", "Decimal.Add", "Decimal.Sub":
@@ -35,7 +38,7 @@ func funcPropsBase(name string) []string {
 		return []string{"C18"}
 	case "Decimal.Cmp", "Decimal.CmpAbs", "Decimal.Equal", "Compare", "Min", "Max", "Decimal.IsZero", "Decimal.Sign":
 		return []string{"C04"}
-	case "Decimal.isOne":
+	case "Decimal.isOne", "isOne":
 		return []string{"C18", "C04"}
 	case "parse", "Decimal.Scan", "Parse", "MustParse", "Decimal.UnmarshalText":
 		return []string{"C05"}
